@@ -236,6 +236,12 @@ def check_c15(run):
                 s["calls"] = [mkcall(*rng.choice(ANY)) for _ in range(rng.randint(2, 3))]
             if rng.random() < 0.25:
                 s["rules"] = with_cf(s["rules"])
+            elif rng.random() < 0.3 and not any(c["method"] == "ExecuteDAGModel" for c in s["calls"]):
+                # rules without any assignment statement: their locals are bound by forRange only
+                for r in s["rules"]:
+                    if all(o["k"] in ("W", "R", "H") for o in r["ops"]) and rng.random() < 0.8:
+                        r["noasg"] = True
+                        r["ops"] = [dict(o, k="FR") if o["k"] == "W" else o for o in r["ops"]]
             sessions.append(s)
     # programs with injected fields: sequential models only (log order = real order)
     for rec in (recsI if not quick else rng.sample(recsI, min(len(recsI), 1200))):
